@@ -120,9 +120,12 @@ theorem roundF_done (hok : ∀ s a, fairEnv s a → ok s a) (hokF : ∀ s fs, ok
       by rw [hpods]; exact hd.podsFin, ?_, ?_⟩
     · intro p hp; rw [hpods] at hp; unfold refNames; rw [hjob]; exact hd.recorded p hp
     · intro c
-      have : foundTasks W jo' = foundTasks s jo := by
-        have hl : (fun r : TaskRef => lookTask W r.name) = (fun r => lookTask s r.name) := by
-          funext r; unfold lookTask; rw [hpods]
+      have : foundTasks ({ W with clock := c } : Sys) jo' = foundTasks ({ s with clock := c } : Sys) jo := by
+        have hl : (fun r : TaskRef => lookTask ({ W with clock := c } : Sys) r.name) =
+            (fun r => lookTask ({ s with clock := c } : Sys) r.name) := by
+          funext r; unfold lookTask
+          show (findPod W.pods r.name).bind (podTask c) = (findPod s.pods r.name).bind (podTask c)
+          rw [hpods]
         unfold foundTasks; rw [hjob, hl]
       rw [this, hd', hjob]
       exact hd.stable c
@@ -147,7 +150,7 @@ theorem roundF_done (hok : ∀ s a, fairEnv s a → ok s a) (hokF : ∀ s fs, ok
       h.fresh.podEvs, h.fresh.faults⟩, h.spec, h.npos, ⟨h.pods.owned, h.pods.sane, h.pods.nodel, h.pods.nodup⟩, hwfa,
       h.retries, h.unrec, h.lbClock, h.lbRefs, h.lbPods⟩, hdoneOf jo _ rfl rfl rfl, rfl, rfl, rfl⟩
   | cons k rest =>
-    have hstab := hd.stable s.clock
+    have hstab : recompute s.clock s.d jo.job (foundTasks s jo) = jo.job := hd.stable s.clock
     have htasksEq : generateTaskRefs s.clock jo.job.status.tasks (foundTasks s jo) = jo.job.status.tasks := by
       have := (recompute_sameSpec s.clock s.d jo.job (foundTasks s jo)).2.1
       rw [hstab] at this; exact this.symm
